@@ -23,6 +23,9 @@ RULE += (
          'Also: during the checked rendering every call of the '
          'recorders ft / fa / ff first renders the same compiled '
          'template again from the top (re-entrancy). ')
+RULE += (
+         'Application exception hierarchies named like builtins, '
+         'raised by called code. ')
 ASSUMPTIONS = ['reference interpreter vf/model.py is trusted',
                'dtml-raise of an unknown type name and dtml-return inside a '
                'dtml-raise message body are not generated (not covered by '
